@@ -2,7 +2,7 @@
 import math
 from fractions import Fraction as F
 
-import numpy as np
+from ..core import NP as np
 
 from .. import core
 from ..core import q, qs, guarded, same, unq
